@@ -49,8 +49,10 @@ TTop      == <<Txt("a"), Inc("c"), [t |-> "break"], Txt("never")>>
 RendQ == [t |-> "render", name |-> S("q"), mode |-> "plain", args |-> <<>>]
 TLiquid == <<RendQ, Txt("|"), IfT(V("bad"), <<Incl(S("q"))>>), Txt(".")>>
 TLiquid2 == <<IfT(V("w"), <<Incl(S("q.liquid"))>>), IfT(V("bad"), <<Incl(S("q"))>>), RendQ>>
+\* two cycle groups whose order of first use depends on the data: a group is found by its name, in every render anew
+TCycleOrder == <<IfT(V("bad"), <<Cyc("g"), Cyc("g")>>), Loop("i", 1, 2, <<Cyc("h"), Cyc("g"), CycU>>), Cyc("h")>>
 Triples ==
-  [ t4 |-> <<TLiquid, TLiquid2, TPartials>>,
+  [ t4 |-> <<TLiquid, TLiquid2, TCycleOrder>>,
     t1 |-> <<TStateful, TBreakErr, TTablerow>>,
     t2 |-> <<TPartials, TNested, TStateful>>,
     t3 |-> <<TTop, TPartials, TBreakErr>> ]
